@@ -261,7 +261,7 @@ func main() {
 	r.FloorCount("raw_chunk_streams_exact_multiple_of_chunk_size", int64(r.Pick(3, 8)))
 	r.FloorCount("streams_with_file_length_exact_multiple_of_chunk_size", int64(r.Pick(4, 16)))
 	r.FloorCount("follower_cases_converged_equal", int64(r.Pick(1, 6)))
-	r.FloorCount("follower_leader_writes_100KiB_or_more", int64(r.Pick(10, 100)))
+	r.FloorCount("follower_leader_writes_100KiB_or_more", int64(r.Pick(10, 80)))
 	r.FloorCount("replicated_commands_judged", int64(r.Pick(1200, 15000)))
 	r.FloorCount("replicated_single_key_deletes_judged", int64(r.Pick(150, 2000)))
 	r.FloorCount("replicate_polls", int64(r.Pick(80, 800)))
